@@ -141,7 +141,14 @@ fn uint_arg(v: u128, ty: &'static str) -> A {
 fn adversarial_int(r: &mut Rng, bits: u32, signed: bool) -> (bool, u128) {
     let maxmag: u128 = if signed { 1u128 << (bits - 1) } else if bits == 128 { u128::MAX } else { (1u128 << bits) - 1 };
     let neg = signed && r.coin();
-    let mag: u128 = match r.below(9) {
+    let mag: u128 = match r.below(10) {
+        // log-uniform distance below the top of the type, through the whole band that rounds up to 2^bits
+        // (and a little beyond it): the branch of the wide conversion that measures the distance from MAX
+        9 if bits > 54 => {
+            let j = r.below((bits - 52) as u64) as u32;
+            let d = (1u128 << j) + (r.u128() & ((1u128 << j) - 1)) * (r.below(2) as u128);
+            maxmag - d.min(maxmag)
+        }
         0 => maxmag - r.below(4) as u128,
         1 => r.below(4) as u128,
         2 => {
